@@ -41,6 +41,9 @@ def alloca_out_calls(fn, alloca):
     return out
 
 
+CONTENT = [False]      # look through copies and freshly filled buffers to what they were filled with (opt-in: C06)
+
+
 def origins(prog, v, fn, depth=0, _seen=None, through_params=True):
     """set of Origin for value v in function fn"""
     if _seen is None:
@@ -111,7 +114,39 @@ def origins(prog, v, fn, depth=0, _seen=None, through_params=True):
             return out
         return origins(prog, p, fn, depth, _seen, through_params)
     if op == "call":
-        out.append(Origin("call", norm_callee(v.callee) or "indirect", None, v))
+        nm = norm_callee(v.callee) if v.callee else None
+        if CONTENT[0] and nm in ("strdup", "strndup") and v.ops:
+            # a copy is what it was copied from
+            got = origins(prog, v.ops[0], fn, depth + 1, _seen, through_params)
+            if got:
+                return got
+        if CONTENT[0] and nm in ("malloc", "calloc", "realloc", "alloc_flex", "alloc_array"):
+            # a buffer is what is written into it
+            got = []
+            for i in fn.insts():
+                if i.op != "call" or not i.ops:
+                    continue
+                wn = norm_callee(i.callee) if i.callee else None
+                if wn not in ("memcpy", "memmove", "strcpy", "strncpy", "strcat", "strncat", "stpcpy", "sprintf", "snprintf"):
+                    continue
+                b = strip_casts(resolve_ptr(prog, i.ops[0], fn.unit)[0])
+                hops = 0
+                while b.is_inst and b.op in ("phi", "select") and hops < 3:
+                    cands = [strip_casts(resolve_ptr(prog, o, fn.unit)[0]) for o in (b.ops if b.op == "phi" else b.ops[1:])]
+                    nb = [c_ for c_ in cands if c_ is v]
+                    b = nb[0] if nb else b
+                    hops += 1
+                    if nb:
+                        break
+                if b is not v:
+                    continue
+                srcs = [i.ops[1]] if wn not in ("sprintf", "snprintf") else \
+                    [o for o in i.ops[(2 if wn == "sprintf" else 3):] if (getattr(o, "ty", "") or "").endswith("*")]
+                for s_ in srcs:
+                    got += origins(prog, s_, fn, depth + 1, _seen, through_params)
+            if got:
+                return got
+        out.append(Origin("call", nm or "indirect", None, v))
         return out
     if op == "alloca":
         # a local buffer: where do the bytes stored into it come from?
